@@ -14,7 +14,7 @@ RULE = ("Base points x of order 2-5 (modes 2-4; operators with (m,n) in 1..3) wi
         "1e-12 kappa relative: P(z) equals the reference, linearity, idempotence, self-adjointness, P(x)=x, "
         "<z-Pz,Pw>=0, ranks <= 2 x.R, riemannian_gradient(x,f) = P(grad f(X)) with grad f from dense autograd. "
         "Non-trivial: some interior rank of x >= 2 and z not in the tangent space.")
-BUDGET = {"quick": 2400, "thorough": 48000}
+BUDGET = {"quick": 2400, "thorough": 240000}
 FLOORS = {"quick": {"operator": 300, "order:2": 100, "order:5": 100, "f:quad": 200, "f:lin": 100, "f:quartic": 100,
                     "what:projection": 600, "what:gradient": 600}}
 ASSUMPTIONS = ["x has minimal ranks (verified numerically per case; otherwise the case is counted as skipped)",
